@@ -45,7 +45,7 @@ Qed.
 Theorem journal_balanced : forall k o r, pinned k = false ->
   acquired r (journal k o) = released r (journal k o).
 Proof.
-  intros k o r Hp. destruct k as [| |n mm f|[|]| | | |]; try discriminate Hp; unfold journal; try reflexivity;
+  intros k o r Hp. destruct k as [| |n mm f|[|]| | |[|]| |]; try discriminate Hp; unfold journal; try reflexivity;
     apply bracket_balanced; try reflexivity.
   apply at_stmts_balanced.
 Qed.
@@ -114,7 +114,7 @@ Qed.
 Theorem journal_well_bracketed : forall k o r, well_bracketed r (journal k o) = true.
 Proof.
   intros k o r. unfold well_bracketed.
-  destruct k as [| |n mm f|[|]| | | |]; unfold journal; try reflexivity;
+  destruct k as [| |n mm f|[|]| | |[|]| |]; unfold journal; try reflexivity;
     try (apply wb_bracket; [reflexivity | reflexivity]).
   apply wb_bracket; [apply wb_at_stmts | apply at_stmts_balanced].
 Qed.
